@@ -22,6 +22,11 @@ CLAIMED["C12"] = dict(engine="iosim", design="4.5",
    text="Seeded stored inputs (generated formulas, repository texts, token soups, random bytes, handcrafted edge texts) with 0-4 storage faults and optional corrupted ordering files are delivered through fault-injecting readers to tokenize / ParsedFormula::new; then eval under a tick budget, model, retain, the CLI's table walk and both DOT exporters (into a fault-injecting writer) run under catch_unwind. Any panic other than the budget marker is a violation, reported with location; injected hard I/O errors must come back as Err. Exploration level.",
    note="Build: optimised with overflow-checks (= the dev profile's arithmetic, in which the pinned test suite runs). Inputs above the conservative nesting bound 200 or exhausting the tick budget are executed but unjudged. Output-side failure of stdout is outside the property.")
 
+CLAIMED["C18"] = dict(engine="rgsim", design="4.8",
+   technique="deterministic simulation of the real random_graph_gen process with its RNG behind a seeded seam (guarded hook): seeded requests incl. infeasible ones, replayed and re-run with --dot toggled; --convert/--colors judged by brute force",
+   text="The real binary is spawned per run with a seeded RNG stream replacing thread_rng (guarded hook), over seeded requests (V, E, -u, --complete, --dot, -o; half feasible-interior, a quarter at the maximum, a quarter infeasible or incomplete) and --convert/--colors inputs. Oracles: exactly E distinct loop-free edges over v0..v(V-1), no pair in both orientations under -u, refusal with message and no output for infeasible requests, byte-identical replay, --dot equals the plain edge list, --convert equals the merged input list, clique-cover iff k-colourable by brute force. Exploration level over requests x RNG streams.",
+   note="Trusted: the edge-list parsers and brute-force colouring of /verif/sim. --colors is judged on loop-free inputs with <= 5 vertices and k <= 3. Variety of the generator's output is measured (distinct edge sets) but not judged.")
+
 NOT_APPLICABLE = {
 }
 
